@@ -523,6 +523,11 @@ pub fn run(ctx: &Ctx, rep: &mut Report, replay: Option<&serde_json::Value>) {
     rep.assume("forced outcomes use the verif hook and are serialised process-wide");
     ctx.shrink_iters.store(40, std::sync::atomic::Ordering::Relaxed);
     if let Some(v) = replay {
+        if v.get("sub").and_then(|s| s.as_str()) == Some("retain-spelling") {
+            let t: Tagged<SpellCase> = serde_json::from_value(v.clone()).expect("replay");
+            run_case(ctx, rep, &t.sub, &t.case, spelling_prop);
+            return;
+        }
         if v.get("sub").and_then(|s| s.as_str()) == Some("rrdp-expired") {
             let t: Tagged<Scenario> = serde_json::from_value(v.clone()).expect("replay");
             run_case(ctx, rep, &t.sub, &t.case, rrdp_expired_prop);
@@ -544,6 +549,11 @@ pub fn run(ctx: &Ctx, rep: &mut Report, replay: Option<&serde_json::Value>) {
     rep.rule("(rrdp) E-rpki histories of 2-4 runs in which every CA is published through one of 2 RRDP repositories with chance 1/2, child CAs vanish from / appear in single versions of their parent's manifest (4/16 per child), notifications fail (4/16 per repository and run), modules are unreachable, runs are offline, dirty is on 1 in 8; oracle after every run (shared judge): the stored points of the model are present and byte-identical under the path keyed by rpkiNotify, the payload equals the model's (so the retained data is usable), and the local archive of every RRDP repository the model retains (updated or tried in this run, or referred to by a retained stored point) exists; non-trivial = a repository failed in a run after one that stored a point of one of its CAs, or a CA published through RRDP with a stored point vanished from its parent's manifest");
     run_prop_par(ctx, rep, "rrdp", ctx.tier.pick(80, 1600), 8, || (genome(260), rrdp_genome(), genome(24)).prop_map(|(w, r, k)| rrdp_case(&w, &r, &k)), rrdp_prop);
     if !rep.violated() {
+        use proptest::prelude::*;
+        rep.rule("(retain-spelling) 1-6 local rsync module copies over 4 hosts x 3 modules, a generated subset retained through Cleanup::add_rsync_module with the host spelled in generated mixed case (as a CA certificate may spell it); oracle: after the collector's cleanup the copy of every retained module still exists; non-trivial = some retained URI spells its host differently from the canonical form");
+        run_prop(ctx, rep, "retain-spelling", ctx.tier.pick(300, 5000), prop::collection::vec((0u8..4, 0u8..3, any::<bool>(), any::<u16>()), 1..=6).prop_map(|modules| SpellCase { modules }), spelling_prop);
+    }
+    if !rep.violated() {
         rep.rule("(rrdp-expired) the same generated RRDP trees, two runs with refresh = rrdp-fallback-time = 1 s: everything fetched, 2.2 s pause (local copies past their best-before), every RRDP server failing in the second run; oracle: the second run succeeds and the archive of every repository to which a stored point with an unexpired manifest is keyed still exists; non-trivial = at least one such repository");
         run_prop_par(ctx, rep, "rrdp-expired", ctx.tier.pick(16, 240), 8, || (genome(260), rrdp_genome(), genome(24)).prop_map(|(w, r, k)| rrdp_case(&w, &r, &k)), rrdp_expired_prop);
     }
@@ -558,6 +568,74 @@ pub fn run(ctx: &Ctx, rep: &mut Report, replay: Option<&serde_json::Value>) {
 //------------------------------------------------------------------------------------------
 // Sub-check "rrdp": retention of RRDP-keyed stored points and local RRDP archives
 
+
+
+//------------------------------------------------------------------------------------------
+// Sub-check "retain-spelling": the collector's retain set against spellings of one host
+
+/// Per local rsync module copy: (host index, module index, retained?, case mask for the spelling of
+/// the host in the retained point's manifest URI).
+#[derive(serde::Serialize, serde::Deserialize, Clone, Debug)]
+pub struct SpellCase {
+    pub modules: Vec<(u8, u8, bool, u16)>,
+}
+
+/// The store's cleanup registers the rsync module of every retained point with the URI exactly as
+/// the CA certificate spelled it; host names are case-insensitive and the local copy lives under
+/// the canonical (lower-case) authority. Whatever the spelling, the copy of a retained point's
+/// module must survive the collector's cleanup.
+fn spelling_prop(c: &SpellCase, info: &mut CaseInfo) -> Verdict {
+    use routinator::collector::{Cleanup, Collector};
+    const HOSTS: [&str; 4] = ["rpki.example.net", "repo.rpki-test.example", "a.b", "xn--rpki-9qa.example.org"];
+    const MODS: [&str; 3] = ["repo", "Repo2", "m"];
+    let dir = tempfile::Builder::new().prefix("c40s-").tempdir_in(crate::erun::scratch_base()).expect("tmp");
+    let cache = dir.path().join("cache");
+    let mut config = routinator::config::Config::default_with_paths(dir.path().join("routinator.conf"), cache.clone());
+    config.disable_rrdp = true;
+    config.rsync_command = "true".into();
+    let mut collector = match Collector::new(&config) {
+        Ok(c) => c,
+        Err(_) => return Verdict::Dropped("collector_new_failed".into()),
+    };
+    if collector.ignite().is_err() {
+        return Verdict::Dropped("ignite_failed".into());
+    }
+    let mut seen = std::collections::BTreeMap::new();
+    for (h, m, keep, mask) in &c.modules {
+        let e = seen.entry((*h as usize % HOSTS.len(), *m as usize % MODS.len())).or_insert((false, *mask));
+        e.0 |= *keep;
+    }
+    let mut retain = Cleanup::new();
+    let mut expect = Vec::new();
+    let mut mixed = false;
+    for ((h, m), (keep, mask)) in &seen {
+        let file = cache.join("rsync").join(HOSTS[*h]).join(MODS[*m]).join("ca").join("ca.mft");
+        std::fs::create_dir_all(file.parent().unwrap()).unwrap();
+        std::fs::write(&file, b"content").unwrap();
+        if *keep {
+            let spelled: String = HOSTS[*h].chars().enumerate().map(|(i, ch)| if mask >> (i % 16) & 1 == 1 { ch.to_ascii_uppercase() } else { ch }).collect();
+            mixed |= spelled != HOSTS[*h];
+            let uri = format!("rsync://{}/{}/ca/ca.mft", spelled, MODS[*m]);
+            match rpki::uri::Rsync::from_string(uri.clone()) {
+                Ok(u) => retain.add_rsync_module(&u),
+                Err(_) => return Verdict::Dropped("uri_not_accepted".into()),
+            }
+            expect.push((file, uri));
+        }
+    }
+    info.nt(mixed);
+    info.class(if mixed { "spelling=mixed-case-host" } else { "spelling=canonical" });
+    let run = collector.start();
+    if run.cleanup(&mut retain).is_err() {
+        return Verdict::fail("C40/retain-spelling/cleanup-failed", "collector cleanup failed".to_string());
+    }
+    for (file, uri) in expect {
+        if !file.exists() {
+            return Verdict::fail("C40/rsync-module-removed/host-spelling", format!("the local copy {} of the module of a retained publication point (manifest URI {}) was removed by the collector's cleanup", file.strip_prefix(&cache).unwrap_or(&file).display(), uri));
+        }
+    }
+    Verdict::Pass
+}
 
 //------------------------------------------------------------------------------------------
 // Sub-check "rrdp-expired": a local RRDP copy past its best-before time is still a collector copy
